@@ -23,11 +23,11 @@ Definition show_q (q : Q) : str := let r := Qred q in (show_z (Qnum r) ++ s2l "/
 Definition show_pt (p : qpt) : str := (show_q (fst p) ++ s2l "," ++ show_q (snd p))%list.
 Fixpoint join_with (sep : str) (l : list str) : str :=
   match l with [] => [] | [a] => a | a :: r => (a ++ sep ++ join_with sep r)%list end.
-Definition show_children (cs : list qpt) (c : qpt) (start : nat) (e : entry) : str :=
+Definition show_children (cs : list qpt) (c : qpt) (start : nat) (cols : list (child * str)) : str :=
   (show_nat start ++ s2l "|" ++
    join_with (s2l ";")
-     (map (fun ch => let poly := map (qvpos cs c start) ch in
-                     (join_with (s2l " ") (map show_pt poly) ++ s2l ":" ++ show_q (qpoly_area poly))%list) e))%list.
+     (map (fun x => let poly := map (qvpos cs c start) (fst x) in
+                    (join_with (s2l " ") (map show_pt poly) ++ s2l ":" ++ show_q (qpoly_area poly) ++ s2l "@" ++ snd x)%list) cols))%list.
 Definition show_nats (l : list nat) : str := join_with (s2l ",") (map show_nat l).
 
 Definition run_case (line : str) : str :=
@@ -50,21 +50,36 @@ Definition run_case (line : str) : str :=
       if str_eqb k (s2l "cen") then show_pt (qcentroid (pts_of (qs_of a)))
       else if str_eqb k (s2l "area") then show_q (qpoly_area (pts_of (qs_of a)))
       else s2l "BADCASE"
-  | [k; a; b; c; d] =>
+  | [k; a; b; c; d; sf] =>
+      (* sf = the parent's surface (an opaque token: the model only hands it on to the new columns) *)
       if str_eqb k (s2l "rf") then
         let cs := pts_of (qs_of c) in
         match pts_of (qs_of d), refine_children (nat_of_str a) (nats_of b) with
-        | [cen], Some (istart, e) => show_children cs cen istart e
+        | [cen], Some (istart, e) => show_children cs cen istart (subdivide_cols sf e)
         | _, _ => s2l "NONE"
         end
       else if str_eqb k (s2l "dc") then
         let cs := pts_of (qs_of c) in
         match pts_of (qs_of d), decompose_model (nat_of_str a) (nats_of b) with
-        | [cen], DSub start e => show_children cs cen start e
+        | [cen], DSub start e => show_children cs cen start (subdivide_cols sf e)
         | _, DKeep => s2l "KEEP"
         | _, _ => s2l "RAISE"
         end
-      else if str_eqb k (s2l "vol") then
+      else if str_eqb k (s2l "sp") then
+        let cs := pts_of (qs_of c) in
+        match pts_of (qs_of d), split_model (nat_of_str a) (nat_of_str b) with
+        | [cen], Some (i0, e) => show_children cs cen i0 (subdivide_cols sf e)
+        | _, _ => s2l "FALSE"
+        end
+      else if str_eqb k (s2l "tr") then
+        let cs := pts_of (qs_of c) in
+        match pts_of (qs_of d) with
+        | [cen] => show_children cs cen 0 (subdivide_cols sf (fan (nat_of_str a)))
+        | _ => s2l "NONE"
+        end
+      else s2l "BADCASE"
+  | [k; a; b; c; d] =>
+      if str_eqb k (s2l "vol") then
         match column_volume (q_of_str a) (qs_of b) (q_of_str c) (q_of_str d) with
         | Some v => show_q v
         | None => s2l "NONE"
